@@ -150,6 +150,10 @@ def _family(name: str, tier: str) -> t.List[dict]:
                     out.append(sp)
     elif name == 'oneofx':
         out += oneofx(tier)
+    elif name == 'switchx':
+        out += switchx(tier)
+    elif name == 'recx':
+        out += recx(tier)
     elif name == 'overlap':
         for n in range(3, (4 if q else 5) + 1):
             out += programs(n, 1 if n >= 5 else 2, 0, overlap=True, rec_max=1)
@@ -269,6 +273,135 @@ def oneofx(tier: str = 'quick') -> t.List[dict]:
                 c3 = b.cand(s3)
                 second = [c3] if single else [c3, b.cand('leaf')]
                 emit(b, b.consumer('O', [['o1', 'oneof', [c1, c2]], ['o2', 'oneof', second]]))
+    return out
+
+
+def switchx(tier: str = 'quick') -> t.List[dict]:
+    """Switch programs composed from case sub-pipeline shapes and consumer topologies."""
+    q = tier == 'quick'
+    firsts = CAND_SHAPES
+    seconds = ('leaf', 'sh') if q else ('leaf', 'chain', 'sh', 'sh-join')
+    out: t.List[dict] = []
+    seen: t.Set[str] = set()
+
+    def emit(b: _Builder, output: str) -> None:
+        sp = S.normalise(b.spec(output))
+        k = S.canon(sp)
+        if k not in seen and S.well_formed(sp) and not S.static_tags(sp):
+            seen.add(k)
+            out.append(sp)
+
+    def sw(name: str, decider: str, c_a: str, c_b: str) -> dict:
+        return {'switch': decider, 'cases': [['a', c_a], ['b', c_b]], 'name': name}
+
+    for dec in ('input', 'node', 'shared'):
+        for s1 in firsts:
+            for s2 in seconds:
+                def mk() -> t.Tuple[_Builder, str, str, str]:
+                    b = _Builder()
+                    d = 'I' if dec == 'input' else (b.node('S', 'I') if dec == 'node' else b.node('S', b.shared()))
+                    return b, d, b.cand(s1), b.cand(s2)
+                b, d, c1, c2 = mk()
+                emit(b, b.consumer('O', [['c', 'switch', sw('sw', d, c1, c2)]]))
+                b, d, c1, c2 = mk()
+                emit(b, b.consumer('O', [['c', 'switch', sw('sw', d, c1, c2)], ['m', 'in', b.shared()]]))
+                # a case that is also consumed directly, in both parameter orders
+                b, d, c1, c2 = mk()
+                emit(b, b.consumer('O', [['c', 'switch', sw('sw', d, c1, c2)], ['d', 'in', c1]]))
+                b, d, c1, c2 = mk()
+                emit(b, b.consumer('O', [['d', 'in', c2], ['c', 'switch', sw('sw', d, c1, c2)]]))
+                if dec == 'shared' and q:
+                    continue
+                # two switches on the same decider sharing a case, consumed by two nodes
+                b, d, c1, c2 = mk()
+                x = b.consumer('X', [['c', 'switch', sw('swx', d, c1, c2)]])
+                y = b.consumer('Y', [['c', 'switch', sw('swy', d, c1, b.cand('leaf'))]])
+                emit(b, b.consumer('O', [['x_', 'in', x], ['y_', 'in', y]]))
+                # nested: the inner switch's consumer is case 'a' of the outer switch
+                b, d, c1, c2 = mk()
+                n = b.consumer('N', [['c', 'switch', sw('inner', d, c1, c2)]])
+                d2 = b.node('T', 'I')
+                emit(b, b.consumer('O', [['c', 'switch', sw('outer', d2, n, b.cand('leaf'))]]))
+                # chained: a case of the second switch depends on the first switch's consumer
+                b, d, c1, c2 = mk()
+                m = b.consumer('M', [['c', 'switch', sw('first', d, c1, c2)]])
+                c3 = b.cand('leaf', m)
+                emit(b, b.consumer('O', [['c', 'switch', sw('second', d, c3, b.cand('leaf'))], ['m', 'in', m]]))
+    return out
+
+
+def recx(tier: str = 'quick') -> t.List[dict]:
+    """Recurrent-subgraph programs composed from region shapes and contexts."""
+    q = tier == 'quick'
+    out: t.List[dict] = []
+    seen: t.Set[str] = set()
+
+    def emit(b: _Builder, output: str) -> None:
+        sp = S.normalise(b.spec(output))
+        k = S.canon(sp)
+        if k not in seen and S.well_formed(sp) and not S.static_tags(sp):
+            seen.add(k)
+            out.append(sp)
+
+    def region(b: _Builder, shape: str, start: str) -> str:
+        """Add the nodes of a region below `start`; return the destination."""
+        if shape == 'direct':
+            return b.node('D', start)
+        if shape == 'chain':
+            return b.node('D', b.node('A', start))
+        if shape == 'chain3':
+            return b.node('D', b.node('B', b.node('A', start)))
+        if shape == 'diamond':
+            return b.node('D', b.node('A', start), b.node('B', start))
+        if shape == 'side-input':       # an inner node also reads a node outside the region
+            return b.node('D', b.node('A', start, b.node('X', 'I')))
+        if shape == 'relay':
+            return b.node('D', b.node('A', start), b.node('R', b.node('B', start)))
+        raise KeyError(shape)
+
+    shapes = ('direct', 'chain', 'diamond', 'side-input', 'relay') if q else ('direct', 'chain', 'chain3', 'diamond', 'side-input', 'relay')
+    for start_kind in ('input', 'inner'):
+        for shape in shapes:
+            for mx in ((1,) if q else (1, 2)):
+                for use_default in (False, True):
+                    def mk() -> t.Tuple[_Builder, str, str]:
+                        b = _Builder()
+                        st = 'I' if start_kind == 'input' else b.node('S', 'I')
+                        d = region(b, shape, st)
+                        if use_default:
+                            b.nodes[d]['use_default'] = True
+                        return b, st, d
+                    b, st, d = mk()
+                    emit(b, b.consumer('O', [['r', 'rec', {'start': st, 'dest': d, 'max': mx}]]))
+                    # a sibling outside the subgraph
+                    b, st, d = mk()
+                    emit(b, b.consumer('O', [['r', 'rec', {'start': st, 'dest': d, 'max': mx}], ['k', 'in', b.node('K', 'I')]]))
+                    # second consumer of the destination
+                    b, st, d = mk()
+                    c = b.node('C', d)
+                    emit(b, b.consumer('O', [['r', 'rec', {'start': st, 'dest': d, 'max': mx}], ['c', 'in', c]]))
+                    # a consumer chain behind the subgraph
+                    b, st, d = mk()
+                    m = b.consumer('M', [['r', 'rec', {'start': st, 'dest': d, 'max': mx}]])
+                    emit(b, b.node('O', m))
+                    if use_default or mx > 1:
+                        continue
+                    # nested: an inner subgraph on the path of the outer one
+                    b, st, d = mk()
+                    m = b.consumer('M', [['r', 'rec', {'start': st, 'dest': d, 'max': 1}]])
+                    d2 = b.node('E', m)
+                    emit(b, b.consumer('O', [['r', 'rec', {'start': st, 'dest': d2, 'max': 1}]]))
+                    # two subgraphs one after the other
+                    b, st, d = mk()
+                    m = b.consumer('M', [['r', 'rec', {'start': st, 'dest': d, 'max': 1}]])
+                    d2 = b.node('E', b.node('F', m))
+                    emit(b, b.consumer('O', [['r', 'rec', {'start': m, 'dest': d2, 'max': 1}]]))
+                    # same start, two destinations
+                    if start_kind == 'inner' and (shape in ('direct', 'chain') or not q):
+                        b, st, d = mk()
+                        d2 = b.node('E', st)
+                        emit(b, b.consumer('O', [['r1', 'rec', {'start': st, 'dest': d, 'max': 1}],
+                                                 ['r2', 'rec', {'start': st, 'dest': d2, 'max': 1}]]))
     return out
 
 
